@@ -34,6 +34,9 @@ SPEC = dict(
     rule="refine|simplify (A <statements>) <expr> (2:1): expressions are one refinable piece (abs, sign, floor, ceiling, "
          "conjugate, max/min of 2-4 terms, nested powers (x**k)**n with even / odd / fractional k, log of powers and of "
          "integers, reciprocal trig functions to integer powers, f(abs(..)), f(sign(..))) over arithmetic of three symbols and "
+         "pi; plus 8% nested powers with a non-real or symbolic inner exponent under x > 0 and 8% products f(u)**a*g(u)**b of a "
+         "trig function and its reciprocal with the same argument (all six ordered pairs); sample values include 30, 100, 1/30, "
+         "1/100; expressions over three symbols and "
          "pi, alone or inside a sum / product context, under random per-symbol assumption sets (domain x sign facts); "
          "distinct = distinct op lines; non-trivial = all but trivial-arith; impl_stats gives changed/unchanged results and "
          "the number of evaluated points",
